@@ -73,6 +73,10 @@ fn run_mode(case: &Case, mode: Mode, chunks: bool, sc: &Scratch, tag: &str) -> R
                 Item::Flush => {
                     use std::io::Write;
                     let _ = w.flush();
+                    if mode.is_async() {
+                        // let the writer thread catch up (and return its buffers to the pool)
+                        std::thread::sleep(std::time::Duration::from_millis(1));
+                    }
                 }
                 Item::Rec(_) => {}
             }
@@ -95,7 +99,12 @@ fn run_mode(case: &Case, mode: Mode, chunks: bool, sc: &Scratch, tag: &str) -> R
                     model.write(&line, now);
                     sess.write(&p);
                 }
-                Item::Flush => sess.flush(),
+                Item::Flush => {
+                    sess.flush();
+                    if mode.is_async() {
+                        std::thread::sleep(std::time::Duration::from_millis(1));
+                    }
+                }
                 Item::Chunk(_) => {}
             }
         }
@@ -131,6 +140,10 @@ impl Property for P {
     }
     fn chunk(_t: Tier) -> u64 {
         150
+    }
+    fn replay_repeats() -> u32 {
+        // async modes: which pooled buffer a record gets depends on the writer thread's progress
+        10
     }
     fn fixed_cases(_tier: Tier) -> Vec<Case> {
         let mut v = Vec::new();
